@@ -1,0 +1,70 @@
+//go:build verif
+
+package litefs
+
+// Hooks for the deterministic-simulation harness in /verif. Only compiled with
+// the "verif" build tag; see verif_off.go for the no-op counterparts.
+
+// VerifPageOp, if set, is invoked at the entry of every database page write
+// ("write") and database truncation ("truncate") performed by a DB. A non-nil
+// error is returned to the caller in place of performing the operation.
+var VerifPageOp func(db *DB, op string, pgno uint32) error
+
+func verifPageOp(db *DB, op string, pgno uint32) error {
+	if fn := VerifPageOp; fn != nil {
+		return fn(db, op, pgno)
+	}
+	return nil
+}
+
+// VerifSetLockHook installs fn as the OnLockStateChange callback of every
+// advisory lock of the database. Must be called before the locks are used.
+func (db *DB) VerifSetLockHook(fn func(lockType LockType, prev, next RWMutexState)) {
+	set := func(rw *RWMutex, typ LockType) {
+		rw.OnLockStateChange = func(prev, next RWMutexState) { fn(typ, prev, next) }
+	}
+	set(&db.pendingLock, LockTypePending)
+	set(&db.sharedLock, LockTypeShared)
+	set(&db.reservedLock, LockTypeReserved)
+	set(&db.writeLock, LockTypeWrite)
+	set(&db.ckptLock, LockTypeCkpt)
+	set(&db.recoverLock, LockTypeRecover)
+	set(&db.read0Lock, LockTypeRead0)
+	set(&db.read1Lock, LockTypeRead1)
+	set(&db.read2Lock, LockTypeRead2)
+	set(&db.read3Lock, LockTypeRead3)
+	set(&db.read4Lock, LockTypeRead4)
+	set(&db.dmsLock, LockTypeDMS)
+}
+
+// VerifLockStates returns the state of each advisory lock of the database.
+func (db *DB) VerifLockStates() map[LockType]RWMutexState {
+	return map[LockType]RWMutexState{
+		LockTypePending:  db.pendingLock.State(),
+		LockTypeShared:   db.sharedLock.State(),
+		LockTypeReserved: db.reservedLock.State(),
+		LockTypeWrite:    db.writeLock.State(),
+		LockTypeCkpt:     db.ckptLock.State(),
+		LockTypeRecover:  db.recoverLock.State(),
+		LockTypeRead0:    db.read0Lock.State(),
+		LockTypeRead1:    db.read1Lock.State(),
+		LockTypeRead2:    db.read2Lock.State(),
+		LockTypeRead3:    db.read3Lock.State(),
+		LockTypeRead4:    db.read4Lock.State(),
+		LockTypeDMS:      db.dmsLock.State(),
+	}
+}
+
+// VerifHaltLock returns a copy of the halt lock currently granted by this
+// (primary) node for the database, if any.
+func (db *DB) VerifHaltLock() *HaltLock {
+	curr := db.haltLockAndGuard.Load().(*haltLockAndGuard)
+	if curr == nil {
+		return nil
+	}
+	other := *curr.haltLock
+	return &other
+}
+
+// VerifSetID overrides the randomly generated node ID.
+func (s *Store) VerifSetID(id uint64) { s.id = id }
